@@ -174,3 +174,26 @@ pub fn out_line(s: &str) {
 macro_rules! outln {
     ($($arg:tt)*) => { $crate::util::out_line(&format!($($arg)*)) };
 }
+
+/// for fuzz targets: silence the default panic output once, but keep panics fatal for libFuzzer (it installs its own abort hook
+/// before us; we chain to it so that a panic that escapes `catch` still aborts the process)
+pub fn install_panic_hook_once() {
+    static ONCE: std::sync::Once = std::sync::Once::new();
+    ONCE.call_once(|| {
+        let prev = std::panic::take_hook();
+        std::panic::set_hook(Box::new(move |info| {
+            let msg = if let Some(s) = info.payload().downcast_ref::<&str>() {
+                s.to_string()
+            } else if let Some(s) = info.payload().downcast_ref::<String>() {
+                s.clone()
+            } else {
+                "<non-string panic>".to_string()
+            };
+            let loc = info.location().map(|l| format!("{}:{}", l.file(), l.line())).unwrap_or_default();
+            LAST_PANIC.with(|p| *p.borrow_mut() = Some(format!("{} @ {}", msg, loc)));
+            if msg.starts_with("VIOLATION-IN-FUZZ-TARGET") {
+                prev(info);
+            }
+        }));
+    });
+}
